@@ -7,4 +7,6 @@ export CARGO_NET_OFFLINE=true
 ( cd coq && coq_makefile -f _CoqProject -o Makefile > /dev/null && timeout 3000 make -j16 > ../.setup-coq.log 2>&1 ) || { tail -30 .setup-coq.log; exit 1; }
 ( cd ocaml && bash build.sh )
 ( cd harness && cp /repo/Cargo.lock Cargo.lock 2>/dev/null || true; timeout 3000 cargo build --offline --bins > ../.setup-cargo.log 2>&1 ) || { tail -30 .setup-cargo.log; exit 1; }
+# the codec harness once more with foyer-common's `serde` feature (C08: the bincode path of Code)
+( cd harness && timeout 3000 cargo build --offline --bin fmt --features serde-path --target-dir target-serde >> ../.setup-cargo.log 2>&1 ) || { tail -30 .setup-cargo.log; exit 1; }
 echo setup ok
